@@ -219,6 +219,66 @@ def truncate_case(case, step):
     return case
 
 
+def ops_key(case):
+    if not isinstance(case, dict):
+        return None
+    for key in ("ops", "blocks", "steps", "txs", "packets", "receipts", "msgs"):
+        if isinstance(case.get(key), list):
+            return key
+    return None
+
+
+def still_fails(prop, suite, case, name, tag="shrink"):
+    """re-execute one case on the real code and the model; does the same monitor/mismatch fire?"""
+    cfg = PROPS[prop]
+    tmp = os.path.join(BUILD, "shrink_%s.json" % prop)
+    json.dump(dict(property=prop, suite=suite, kind="concrete", case=case), open(tmp, "w"))
+    outdir = os.path.join(BUILD, "out_%s_%s_%s" % (prop, suite, tag))
+    rc, out, _ = run_harness(suite, "quick", 1, outdir, replay=tmp)
+    if rc != 0 or not os.path.exists(os.path.join(outdir, "stats.json")):
+        return False
+    diffs, errors, _ = eval_cases(outdir)
+    codes = cfg["codes"].get(suite, {})
+    names = set(codes.get(code, ("code-%d" % code, ""))[0] for (_, _, code) in diffs)
+    stats = json.load(open(os.path.join(outdir, "stats.json")))
+    names |= set(f["monitor"] for f in (stats.get("impl_failures") or []))
+    return name in names
+
+
+def shrink_case(prop, suite, case, name, budget_s=90):
+    """ddmin-style shrinking of the operation list under a time budget (each probe re-runs harness + coqc)."""
+    key = ops_key(case)
+    if key is None or len(case[key]) <= 1:
+        return case, 0
+    t0 = time.time()
+    probes = 0
+    ops = list(case[key])
+    chunk = max(1, len(ops) // 2)
+    while chunk >= 1 and time.time() - t0 < budget_s:
+        i = 0
+        progressed = False
+        while i < len(ops) and time.time() - t0 < budget_s:
+            cand = ops[:i] + ops[i + chunk:]
+            if not cand:
+                i += chunk
+                continue
+            c2 = dict(case)
+            c2[key] = cand
+            probes += 1
+            if still_fails(prop, suite, c2, name):
+                ops = cand
+                progressed = True
+            else:
+                i += chunk
+        if chunk == 1 and not progressed:
+            break
+        chunk = chunk // 2 if chunk > 1 else (1 if progressed else 0)
+    out = dict(case)
+    out[key] = ops
+    out["_shrunk_from"] = len(case[key])
+    return out, probes
+
+
 def write_replay(prop, suite, tier, seed, kind, name, case, step, detail):
     os.makedirs(os.path.join(ROOT, "replays"), exist_ok=True)
     path = os.path.join(ROOT, "replays", "%s-%s-%d.json" % (prop, name, seed))
@@ -356,7 +416,14 @@ def check_property(prop, tier, seed):
         if key in reported or violations >= 1:
             continue
         reported.add(key)
-        path = write_replay(prop, suite, tier, seed, "concrete", name, truncate_case(case, s), s, detail)
+        small = truncate_case(case, s)
+        if os.environ.get("VERIF_NO_SHRINK") != "1" and harness_ok:
+            try:
+                small, probes = shrink_case(prop, suite, small, name, budget_s=60 if tier == "quick" else 600)
+                detail = detail + " (shrunk with %d probes)" % probes
+            except Exception as ex:  # shrinking is best effort
+                detail = detail + " (shrinking failed: %s)" % ex
+        path = write_replay(prop, suite, tier, seed, "concrete", name, small, s, detail)
         lines.append("VIOLATION property=%s replay=%s" % (prop, path))
         violations += 1
     if problems and violations == 0:
